@@ -17,10 +17,9 @@ TECHNIQUE = ("bounded-exhaustive sweep (all triangulations of small point sets x
 RULE = ("inputs: every triangulation TRI(P) of the listed planar point sets (paraboloid lift z=(x^2+y^2)/16, and unlifted with "
         "the library's flat connection), lifted 3x3 / 3x4 grids, tetrahedron, octahedron, icosahedron, 3x3 and 3x4 tori; "
         "configurations: order 1-6 x element x n_smooth {0,1,3} in full, the switches features/use_cotan/cad_correction/"
-        "smooth_normals within <=2 deviations of the defaults; relabelings: all n! (n<=6 thorough, n<=5 quick), single "
-        "transpositions beyond; face listing deviations (start rotations, adjacent swaps) <=2; a case = one distinct "
-        "(labelled mesh, configuration) execution; non-trivial = the mesh has at least one free and/or constrained element "
-        "(always true here)")
+        "smooth_normals within the deviation bound of the tier; relabelings and face-listing deviations (start rotations, "
+        "swaps of adjacent faces) as listed in the bounds; a case = one distinct (labelled and listed mesh, configuration) "
+        "execution of the real solver; non-trivial = the mesh has constrained elements or is closed (always true here)")
 ASSUMPTIONS = [
     "inputs are oriented manifold triangle complexes in general position (exact integer predicate), <= 12 vertices (icosahedron/torus) ",
     "the set of feature edges (FrameField.feat) and the local bases / edge angles of FrameField.conn are taken as given by the library (subjects of C15 / of the connection); the Laplacian, the fixed/free partition, chi, cotangents are recomputed independently",
@@ -30,8 +29,8 @@ ASSUMPTIONS = [
     "relabeling / face-start invariance is asserted with smoothing switched off and cad_correction off (OSQP's 1e-3 tolerance is not round-off)",
 ]
 BOUNDS = {
-    "quick": "TRI(P) for the 7 point sets with <=6 vertices (42 triangulations) x 270 configurations (+48 flat-connection ones); grids 3x3, 3x4; 5 closed meshes; all n! relabelings for n<=5, transpositions for n=6; face-listing deviations <=2 on n<=4, <=1 on n=5",
-    "thorough": "TRI(P) for all 13 point sets up to 8 vertices (387 triangulations) x 270 configurations (+48 flat); grids; closed meshes; all n! relabelings for n<=6, transpositions for n=7,8 and the 3x3 grid; face-listing deviations <=2 on n<=6, <=1 beyond",
+    "quick": "TRI(P) for the 7 point sets with <=6 vertices (30 triangulations), lifted grids 3x3 and 3x4, 5 closed meshes; per mesh: order 1-6 x element x n_smooth {0,1,3} in full with the switches within <=1 deviation (144 configurations) + 24 flat-connection configurations on the planar version; relabelings (n_smooth=0, cad off): all n! for n<=4 (24 cfgs), all 5! on one pentagon triangulation and every transposition on the other 5-vertex meshes (12 cfgs); face-listing deviations <=2 on n<=4, <=1 on n=5 (24 cfgs)",
+    "thorough": "TRI(P) for all 13 point sets up to 8 vertices (387 triangulations), grids, closed meshes; switches within <=2 deviations for n<=6, grids and closed meshes (270 + 48 flat configurations per mesh), <=1 for n=7 (144+24), order x element x n_smooth only for n=8 (36+24); relabelings: all n! for n<=5 (42 cfgs n<=4, 24 cfgs n=5), all 6! on one triangulation of each 6-point set (12 cfgs), every transposition on the other 6-vertex meshes (24 cfgs), on every 3rd 7-vertex and every 8th 8-vertex mesh (12 cfgs) and on the 3x3 grid (24 cfgs); face-listing deviations <=2 for n<=5, <=1 for n=6 and every 6th mesh with n>=7 (24 cfgs)",
 }
 
 SEED = int(os.environ.get("VERIF_SEED", "0") or 0)
@@ -149,10 +148,10 @@ def tasks(tier):
         for idx, (name, n, P, tri) in enumerate(fam[s]):
             last = len(fam[s]) - 1
             if n <= 4:
-                perms, level = [list(p) for p in itertools.permutations(range(n))][1:], 2
+                perms, level = [list(p) for p in itertools.permutations(range(n))][1:], (1 if quick else 2)
             elif n == 5:
                 if quick:
-                    full = idx == last
+                    full = (s == "p5" and idx == last)
                     perms, level = ([list(p) for p in itertools.permutations(range(n))][1:] if full else _transpositions(n)), 0
                 else:
                     perms, level = [list(p) for p in itertools.permutations(range(n))][1:], 1
@@ -658,7 +657,7 @@ def _relabel(task, rep, M):
 def _listing(task, rep, M):
     from mc import families as F
     pts, faces = task["pts"], [tuple(f) for f in task["faces"]]
-    cfgs = _inv_configs(0)
+    cfgs = _inv_configs(1)
     bases = [_check(rep, M, task["mesh"], pts, faces, cfg, want_sing=False) for cfg in cfgs]
     for tag, fl in F.face_listing_deviations(faces, task["dev"]):
         if not tag:
